@@ -7,6 +7,9 @@
      W tb | cur | ops                   -> a history on harper_wasm::Linter
      C path cps | path cps              -> do the two paths share their file dictionary (C07Collide.x_f20_collide)? "1" / "0"
      S o w w s r                        -> the system calls of one real save on <name>.tmp, in order: accepted by C07Power.x_order_ok? "1" / "0"
+     V tb | cur | .u,.u | .f,.f | .i,.i | .t -> [curated; user; file; identifiers] from word lists: "S <spelling> : <dialect ok> <exact>" /
+                                           "N <exact>" = entry of the first child with the token's id + the exact test (C07Class.x_view, x_exact)
+     K tb | .w | .p,.p                  -> one dictionary after the adds w, p..: does its exact test find w? (C07Class.x_f15_keeps) "1" / "0"
      M tb | .w,.w | .w,.w               -> MergedDictionary::eq of [curated; dictionary of the first word list] and
                                            [curated; dictionary of the second]: "1" / "0"
    tb  = "c f l1 l2 ..", ..   (char, is_lowercase, to_lowercase)      cur = "dok c1 c2 ..", ..
@@ -15,6 +18,8 @@
            (obs = the dictionary file as found afterwards, from which the iteration order of the hash map is read off) | "l i : .t,.t" lint | "r" restart
            | "c i : .id,.id : .t,.t" check of a SOURCE document: its identifiers (create_ident_dict), the Word tokens of its comments
            | "u i : S : .id,.id" / "u i : P" the update_document_from_file an add command makes for its (open) document: source / plain
+           | "o i L : alts" didOpen with language id L | "g i : alts" didChange | "h i : alts" hidden update | "x i" didClose  (C07Lang);
+             alts = "L P .t,.t" / "L S .id,.id ! .t,.t" / "L X": the text as every language in play reads it; output = the reported words, sorted
            | "k a : .w : obs : obstmp" / "k f i : .w : obs : obstmp"  crash during the add; obs / obstmp = what was found
              on disk afterwards in the dictionary file / in its temporary sibling <name>.tmp:
              "n" (no file) | "c cps" (text) | "t cps" (text followed by a cut UTF-8 sequence)
@@ -121,39 +126,63 @@ let dump tb s urls =
   let per_url u = match file_dict_name u with Some nm -> at (FileP nm) | None -> "~" in
   String.concat " # " (at UserP :: List.map per_url urls)
 
+(* "L P .t,.t" | "L S .id,.id ! .t,.t" | "L X", separated by "/" : the text of a check as each language in play reads it *)
+let alts_of s =
+  if String.trim s = "" then [] else
+  List.map (fun a ->
+    let a = String.trim a in
+    let sp = String.index a ' ' in
+    let l = int_of_string (String.sub a 0 sp) in
+    let rest = String.trim (String.sub a sp (String.length a - sp)) in
+    let body = String.trim (String.sub rest 1 (String.length rest - 1)) in
+    let alt = (match rest.[0] with
+      | 'P' -> APlain (words_of_field body)
+      | 'S' -> (match split '!' body with
+                | [ids; toks] -> ASrc (words_of_field ids, words_of_field toks)
+                | _ -> failwith "bad source alternative")
+      | _ -> ANone) in
+    (nat_of_int l, alt)) (split '/' s)
+
 let history tb cur urls ops =
   let urls_a = Array.of_list urls in
   let st = ref fs_empty in
   let cache = ref [] in
+  let lm = ref [] in
+  let l0 = nat_of_int 0 in
   let outs = List.map (fun o ->
     let parts = split ':' o in
     let hd = List.hd parts in
     let arg k = List.nth parts k in
-    (* the server with per-document state incl. identifier dictionaries (C07Ident.irun; C07_ident_transparent) *)
-    let one_i order iop = let ((s', c'), out) = x_irun tb cur order (!st, !cache) [iop] in st := s'; cache := c'; out in
-    let one_o order op = one_i order (IBase op) in
-    let one op = one_o [] op in
+    (* the server with per-document state: dictionaries incl. identifiers (C07Ident) and the stored language (C07Lang.lstep;
+       C07_lang_transparent).  The old operations are checks in the one language (0) of their history. *)
+    let one_l order lop = let (((s', c'), m'), out) = x_lstep tb cur order ((!st, !cache), !lm) lop in st := s'; cache := c'; lm := m'; out in
+    let one lop = one_l [] lop in
     (* a completed add: the content found in the dictionary file afterwards (optional 3rd field) fixes the order *)
     let add sc w = 
       let order = (match parts with [_; _; o] -> propose (x_add_words tb sc w !st) (content_of o) | _ -> []) in
-      ignore (one_o order (AddWord (sc, w))); "+" in
+      ignore (one_l order (LAdd (sc, w))); "+" in
+    let url i = urls_a.(int_of_string i) in
+    (* the words reported in a check, read in the language in force *)
+    let check u decl a lop =
+      let toks = x_eff_toks !lm u decl a in
+      show_words (reported toks (one lop)) in
     match String.split_on_char ' ' hd with
     | ["a"] -> add SUser (word_of (arg 1))
-    | ["f"; i] -> add (SFile urls_a.(int_of_string i)) (word_of (arg 1))
-    | ["l"; i] ->
-        (match one (LintDoc (urls_a.(int_of_string i), words_of_field (arg 1))) with
-         | [fl] -> show_flags fl | _ -> "?")
-    | ["c"; i] ->
-        (match one_i [] (LintSrc (urls_a.(int_of_string i), words_of_field (arg 1), words_of_field (arg 2))) with
-         | [fl] -> show_flags fl | _ -> "?")
+    | ["f"; i] -> add (SFile (url i)) (word_of (arg 1))
+    | ["l"; i] -> show_flags (one (LOpen (url i, l0, [(l0, APlain (words_of_field (arg 1)))])))
+    | ["c"; i] -> show_flags (one (LOpen (url i, l0, [(l0, ASrc (words_of_field (arg 1), words_of_field (arg 2)))])))
     | ["u"; i] ->
-        let ids = (match arg 1 with "S" -> Some (words_of_field (arg 2)) | _ -> None) in
-        ignore (one_i [] (IUpdate (urls_a.(int_of_string i), ids))); "u"
+        let alt = (match arg 1 with "S" -> ASrc (words_of_field (arg 2), []) | _ -> APlain []) in
+        ignore (one (LHidden (url i, [(l0, alt)]))); "u"
+    | ["o"; i; l] -> let a = alts_of (arg 1) and l = nat_of_int (int_of_string l) in check (url i) (Some l) a (LOpen (url i, l, a))
+    | ["g"; i] -> let a = alts_of (arg 1) in check (url i) None a (LChange (url i, a))
+    | ["h"; i] -> ignore (one (LHidden (url i, alts_of (arg 1)))); "u"
+    | ["x"; i] -> ignore (one (LClose (url i))); "x"
     | "s" :: sc ->
         (* a dictionary file written by hand *)
         let sc = (match sc with ["a"] -> SUser | ["f"; i] -> SFile urls_a.(int_of_string i) | _ -> failwith "bad scope") in
         (match content_of (arg 1) with Some c -> st := x_seed_state sc !st c | None -> ()); "s"
-    | ["r"] -> ignore (one Restart); "r"
+    | ["r"] -> ignore (one LRestart); "r"
     | "k" :: sc ->
         let sc = (match sc with ["a"] -> SUser | ["f"; i] -> SFile urls_a.(int_of_string i) | _ -> failwith "bad scope") in
         let w = word_of (arg 1) in
@@ -164,8 +193,8 @@ let history tb cur urls ops =
         let try_order o = x_crash_ok tb o sc w !st obs obstmp in
         let o1 = propose (x_add_words tb sc w !st) hint in
         let o2 = propose (x_add_words tb sc w !st) obs in
-        (* the process died: the next operation talks to a new server (no linter cache) *)
-        cache := [];
+        (* the process died: the next operation talks to a new server (no document state) *)
+        cache := []; lm := [];
         if try_order o1 || try_order o2 then (st := x_crash_state sc !st obs obstmp; "k1") else "k0"
     | _ -> "?") ops in
   String.concat ";" outs ^ " # " ^ dump tb !st urls
@@ -202,6 +231,15 @@ let () =
             let sc = List.filter_map (fun x -> match x with "o" -> Some SOpen | "w" -> Some SWrite | "s" -> Some SFsync | "r" -> Some SRename | _ -> None)
                        (String.split_on_char ' ' (String.trim t)) in
             if x_order_ok sc then "1" else "0"
+        | 'V', [tb; cur; us; fs; ids; t] ->
+            (* the entry the first child with the token's id holds, and the exact test over all children (C07Class) *)
+            let tb = table tb and cur = curated cur in
+            let us = words_of_field us and fs = words_of_field fs and ids = words_of_field ids and t = word_of t in
+            let ex = if x_exact tb cur us fs ids t then "1" else "0" in
+            (match x_view tb cur us fs ids t with
+             | Some (sp, dok) -> "S " ^ show_word sp ^ " : " ^ (if dok then "1" else "0") ^ " " ^ ex
+             | None -> "N " ^ ex)
+        | 'K', [tb; w; post] -> if x_f15_keeps (table tb) (word_of w) (words_of_field post) then "1" else "0"
         | 'W', [tb; cur; ops] ->
             let ops = if String.trim ops = "" then [] else split ';' ops in
             wasm_history (table tb) (curated cur) ops
